@@ -72,13 +72,31 @@ def sub_lroo_accessor(case):
     da = xr.DataArray(cube, dims=("y", "x", "time"),
                       coords={"time": pd.date_range("2000-01-01", periods=arr.shape[1], freq="D")})
     da = da.transpose(*order)
-    res = call("hdc.algo.lroo", lambda: da.hdc.algo.lroo())
+    if case.get("tchunks"):
+        # dask input whose TIME axis is split into (irregular) chunks: the accessor may refuse it, but if it answers the answer
+        # must be the longest run of the whole series
+        sizes, left = [], arr.shape[1]
+        for c in case["tchunks"]:
+            if left <= 0:
+                break
+            sizes.append(min(int(c), left))
+            left -= sizes[-1]
+        if left > 0:
+            sizes.append(left)
+        lz = da.chunk({"time": tuple(sizes), "y": -1, "x": -1})
+        try:
+            res = lz.hdc.algo.lroo().compute(scheduler="synchronous")
+        except Exception:  # noqa: BLE001 - refusing a chunked time axis is allowed
+            return "refused_time_chunks"
+    else:
+        res = call("hdc.algo.lroo", lambda: da.hdc.algo.lroo())
     req("time" not in res.dims and set(res.dims) == {"y", "x"}, "lroo accessor dims %s" % (res.dims,), "lroo dims")
     res = res.transpose("y", "x").values.reshape(npx)
     for i in range(npx):
         want = ref_lroo(rows[i])
         req(int(res[i]) == want, "lroo accessor: pixel %s -> %d, model %d" % (fmt(arr[i]), int(res[i]), want),
             "lroo accessor value")
+    return None
 
 
 def _croo_da(rows, stored_order, dims, axis="fancy"):
@@ -278,6 +296,17 @@ def run(ctx):
               st.builds(lambda rs, d: {"pixels": acc_case(rs), "dims": d}, st.lists(rle, min_size=1, max_size=3),
                         st.permutations(["y", "x", "time"])),
               ctx.n(60, 800), fn=f_long_acc)
+
+    # 3b. short series through dask with the time axis split into irregular chunks (refused, or the run of the WHOLE series)
+    def f_tc(case):
+        why = sub_lroo_accessor(case)
+        ctx.rec.case("lroo_accessor", case, nontrivial=True, cls="time_chunked:" + ("refused" if why else "answered"))
+
+    tc = st.integers(3, 16).flatmap(lambda n: st.builds(
+        lambda px, ch, d: {"pixels": px, "dims": list(d), "tchunks": ch},
+        st.lists(st.lists(st.sampled_from([0, 1, 1, 1]), min_size=n, max_size=n), min_size=1, max_size=3),
+        st.lists(st.integers(1, 6), min_size=2, max_size=6), st.permutations(["y", "x", "time"])))
+    ctx.given("lroo_accessor", tc, ctx.n(40, 500), fn=f_tc)
 
     # 4. croo: all binary series of length n as pixels x every permutation of stored order, n <= 6
     nmax = ctx.n(5, 7)
